@@ -65,3 +65,54 @@ def canonical (x64 : Bool) (a : String) : String :=
     else if a == "complex128" then "complex64" else a
 
 end Furax
+
+namespace Furax
+open Generated
+
+/-- tags for which a theorem about the class's kernel exists (FuraxProofs/Props/C08.lean lists them) -/
+def provedTags (cls : String) : List String :=
+  if ["IdentityOperator", "HomothetyOperator", "DiagonalOperator", "DiagonalInverseOperator", "HWPOperator"].contains cls
+  then ["is_diagonal", "is_symmetric"]
+  else if cls == "SymmetricBandToeplitzOperator" then ["is_symmetric"]
+  else []
+
+/-- every tag that dispatches to `True` for the class is one with a theorem -/
+def tagsOk (r : ClassRow) : Bool := r.tagsTrue.all fun t => (provedTags r.name).contains t
+
+/-- `@symmetric` wiring: a class tagged symmetric returns itself as transpose, and is square -/
+def symmetricWiringOk (r : ClassRow) : Bool :=
+  !(r.tagsTrue.contains "is_symmetric") ||
+    (r.method "transpose" == some "symmetric.<locals>.<lambda>" && r.method "out_structure" == r.method "in_structure")
+
+/-- `@orthogonal` wiring (`inverse = transpose`, square) holds exactly for the classes proved orthogonal;
+`MoveAxisOperator` sets `inverse = transpose` itself (a permutation of elements between different shapes) -/
+def orthogonalWiringOk (r : ClassRow) : Bool :=
+  let wired := r.method "inverse" == r.method "transpose" && !r.abstract
+  let expected := ["IdentityOperator", "QURotationOperator", "QURotationTransposeOperator",
+                   "AbstractLazyInverseOrthogonalOperator", "MoveAxisOperator"].contains r.name
+  (wired == expected) &&
+    (!(wired && r.name != "MoveAxisOperator") || r.method "out_structure" == r.method "in_structure")
+
+/-- `@square` wiring for the observation matrix -/
+def squareWiringOk (r : ClassRow) : Bool :=
+  r.name != "ToastObservationMatrixOperator" || r.method "out_structure" == r.method "in_structure"
+
+end Furax
+
+namespace Furax
+open Generated
+
+/-- `tree_unflatten` rebuilds a landscape with `cls(**aux_data)`: every key of the flattened metadata must be
+a constructor parameter and every required parameter must be among the keys -/
+def landscapeRoundTripOk (r : LandscapeRow) : Bool :=
+  r.unflatten == "Landscape.tree_unflatten" &&
+  r.auxKeys.all (fun k => r.ctorParams.contains k) &&
+  r.ctorRequired.all (fun k => r.auxKeys.contains k) &&
+  -- … and what is not passed back must be derivable: the only attributes outside the keys are the derived ones
+  r.attrs.all (fun a => r.auxKeys.contains a || ["shape", "pixel_shape"].contains a)
+
+/-- an equinox module flattens field-wise: dynamic and static field names are disjoint and duplicate-free -/
+def fieldsPartitionOk (r : ClassRow) : Bool :=
+  (r.dynFields ++ r.staticFields).eraseDups.length == (r.dynFields ++ r.staticFields).length
+
+end Furax
